@@ -1,45 +1,54 @@
 --------------------------- MODULE ContinuousPool ---------------------------
-(* users mode — internal/workers/continuous_pool.go: `Workers` goroutines pass a start barrier and   *)
+(* users mode — internal/workers/continuous_pool.go: `par.n` goroutines pass a start barrier and     *)
 (* then loop: stop flag? ; NextIteration (atomic add-and-compare against the limit) ; body.          *)
 (* The limit path cancels the worker context; a separate goroutine turns that into the stop flag.    *)
+(* The run's parameters (number of workers, max-iterations, whether the context handed to Start is   *)
+(* already done) are the never-changing variable `par`, so that one trace specification can validate *)
+(* schedules recorded with different parameters.                                                      *)
 EXTENDS Integers, FiniteSets
-CONSTANTS Workers, MaxIter, AllowCancel, BodiesEnd,
-          PreCancelled,   \* the context handed to Start is already done (cancelled while setup was running)
+CONSTANTS ParamSet,       \* set of [n : workers, m : max-iterations (0 = none), pre : context already done at Start]
+          AllowCancel, BodiesEnd,
           SyncFlag        \* Start sets the stop flag itself when it finds the context done (fix b1d37bc); FALSE = the
                           \* original code, where only the stop goroutine ever sets it
-VARIABLES wpc, arrived, stopFlag, wcancel, spc, iter, ids, bodies
-vars == <<wpc, arrived, stopFlag, wcancel, spc, iter, ids, bodies>>
-Init == /\ wpc = [w \in Workers |-> "barrier"] /\ arrived = {} /\ spc = "wait"
-        /\ wcancel = PreCancelled /\ stopFlag = (PreCancelled /\ SyncFlag)
-        /\ iter = 0 /\ ids = {} /\ bodies = 0
+VARIABLES par, wpc, arrived, stopFlag, wcancel, spc, iter, ids, bodies
+vars == <<par, wpc, arrived, stopFlag, wcancel, spc, iter, ids, bodies>>
+Workers == 1..par.n
+MaxIter == par.m
+PreCancelled == par.pre
+
+InitWith(p) == /\ par = p
+               /\ wpc = [w \in 1..p.n |-> "barrier"] /\ arrived = {} /\ spc = "wait"
+               /\ wcancel = p.pre /\ stopFlag = (p.pre /\ SyncFlag)
+               /\ iter = 0 /\ ids = {} /\ bodies = 0
+Init == \E p \in ParamSet : InitWith(p)
 W(w, l) == wpc' = [wpc EXCEPT ![w] = l]
 Arrive(w) == /\ wpc[w] = "barrier" /\ w \notin arrived /\ arrived' = arrived \cup {w}
-             /\ UNCHANGED <<wpc, stopFlag, wcancel, spc, iter, ids, bodies>>
+             /\ UNCHANGED <<par, wpc, stopFlag, wcancel, spc, iter, ids, bodies>>
 Pass(w) == /\ wpc[w] = "barrier" /\ arrived = Workers /\ W(w, "check")
-           /\ UNCHANGED <<arrived, stopFlag, wcancel, spc, iter, ids, bodies>>
+           /\ UNCHANGED <<par, arrived, stopFlag, wcancel, spc, iter, ids, bodies>>
 Check(w) == /\ wpc[w] = "check" /\ W(w, IF stopFlag THEN "exit" ELSE "next")
-            /\ UNCHANGED <<arrived, stopFlag, wcancel, spc, iter, ids, bodies>>
+            /\ UNCHANGED <<par, arrived, stopFlag, wcancel, spc, iter, ids, bodies>>
 NextIt(w) == /\ wpc[w] = "next" /\ iter' = iter + 1
              /\ IF MaxIter > 0 /\ iter + 1 > MaxIter
                 THEN W(w, "limit") /\ UNCHANGED <<ids, bodies>>
                 ELSE W(w, "body") /\ ids' = ids \cup {iter + 1} /\ bodies' = bodies + 1
-             /\ UNCHANGED <<arrived, stopFlag, wcancel, spc>>
+             /\ UNCHANGED <<par, arrived, stopFlag, wcancel, spc>>
 Limit(w) == /\ wpc[w] = "limit" /\ wcancel' = TRUE /\ W(w, "exit")
-            /\ UNCHANGED <<arrived, stopFlag, spc, iter, ids, bodies>>
+            /\ UNCHANGED <<par, arrived, stopFlag, spc, iter, ids, bodies>>
 Body(w) == /\ BodiesEnd /\ wpc[w] = "body" /\ W(w, "check")
-           /\ UNCHANGED <<arrived, stopFlag, wcancel, spc, iter, ids, bodies>>
-SWake == /\ spc = "wait" /\ wcancel /\ spc' = "flag" /\ UNCHANGED <<wpc, arrived, stopFlag, wcancel, iter, ids, bodies>>
-SFlag == /\ spc = "flag" /\ stopFlag' = TRUE /\ spc' = "done" /\ UNCHANGED <<wpc, arrived, wcancel, iter, ids, bodies>>
-Cancel == /\ AllowCancel /\ ~wcancel /\ wcancel' = TRUE /\ UNCHANGED <<wpc, arrived, stopFlag, spc, iter, ids, bodies>>
+           /\ UNCHANGED <<par, arrived, stopFlag, wcancel, spc, iter, ids, bodies>>
+SWake == /\ spc = "wait" /\ wcancel /\ spc' = "flag" /\ UNCHANGED <<par, wpc, arrived, stopFlag, wcancel, iter, ids, bodies>>
+SFlag == /\ spc = "flag" /\ stopFlag' = TRUE /\ spc' = "done" /\ UNCHANGED <<par, wpc, arrived, wcancel, iter, ids, bodies>>
+Cancel == /\ AllowCancel /\ ~wcancel /\ wcancel' = TRUE /\ UNCHANGED <<par, wpc, arrived, stopFlag, spc, iter, ids, bodies>>
 Worker(w) == Arrive(w) \/ Pass(w) \/ Check(w) \/ NextIt(w) \/ Limit(w) \/ Body(w)
 Next == (\E w \in Workers : Worker(w)) \/ SWake \/ SFlag \/ Cancel
-Spec == Init /\ [][Next]_vars /\ (\A w \in Workers : WF_vars(Worker(w))) /\ WF_vars(SWake \/ SFlag)
+Spec == Init /\ [][Next]_vars /\ (\A w \in 1..4 : WF_vars(w \in Workers /\ Worker(w))) /\ WF_vars(SWake \/ SFlag)
 Ceiling == MaxIter > 0 => (Cardinality(ids) <= MaxIter /\ \A x \in ids : x <= MaxIter)
 Gapless == ids = 1..Cardinality(ids)
 Unique == bodies = Cardinality(ids)
 NoStartBeforeAll == (\E w \in Workers : wpc[w] \notin {"barrier"}) => arrived = Workers
 \* the trigger keeps requesting: with a limit exactly MaxIter bodies run and everything ends
-ExactlyN == (MaxIter > 0 /\ BodiesEnd) => <>(Cardinality(ids) = MaxIter /\ \A w \in Workers : wpc[w] = "exit")
+ExactlyN == (MaxIter > 0 /\ BodiesEnd /\ ~PreCancelled) => <>(Cardinality(ids) = MaxIter /\ \A w \in Workers : wpc[w] = "exit")
 Termination == wcancel ~> (BodiesEnd => \A w \in Workers : wpc[w] = "exit")
 \* C05: a pool started on a context that is already done starts nothing
 NothingOnADeadContext == PreCancelled => ids = {}
